@@ -65,6 +65,10 @@ def run(ctx, env):
     ctx.rule("R5.8", "a field value is reported as sent: in every arm of FieldValue::from_field_type (private helpers inlined) no arithmetic, clamping or narrowing cast is applied to a value read from the input bytes, and each dateTime kind gets its unit from the Duration constructor of that unit (shared with C04 R4.11)")
     from . import valuepath
     valuepath.rule(ctx, prog, an, "R5.8")
+    # R5.9
+    ctx.rule("R5.9", "integers are decoded by DataNumber::parse: (width, signedness) -> a big-endian primitive of exactly that width and the like-named variant, sign-extended for signed kinds, without a narrowing cast; unsupported widths are rejected (shared with C04 R4.6: the IPFIX and V9 decoders use the same table)")
+    from . import c04 as _c04
+    _c04.dn_width_table_rule(ctx, prog, an, "R5.9")
     # R5.7
     from . import records as _rec0
     _rec0.record_stop_rule(ctx, prog, an, "R5.7", IP + "Data::parse_be", "ipfix-data")
